@@ -4,6 +4,7 @@ package explore
 
 import (
 	"fmt"
+	"os"
 	"time"
 
 	"mcrt"
@@ -29,7 +30,8 @@ type Options struct {
 	Deadline   time.Time // zero = none
 	Cfg        mcrt.Config
 	StopOnViol bool
-	Shard, Of  int // subtree sharding on the first choice point's children (Of=0: off)
+	Shard, Of  int    // subtree sharding on the first choice point's children (Of=0: off)
+	CurFile    string // if set, the choice prefix of the execution about to run is written here (race variant: the process may die inside it)
 }
 
 type Found struct {
@@ -111,6 +113,9 @@ func (e *explorer) explore(prefix, expN []int, devs int) {
 	if !e.opt.Deadline.IsZero() && e.st.Execs%64 == 0 && time.Now().After(e.opt.Deadline) {
 		e.st.Capped, e.st.CapReason, e.stop = true, "deadline", true
 		return
+	}
+	if e.opt.CurFile != "" {
+		os.WriteFile(e.opt.CurFile, []byte(fmt.Sprint(prefix)), 0o644)
 	}
 	rc := &replayChooser{prefix: prefix, expN: expN}
 	out := e.exec(rc, e.opt.Cfg)
